@@ -12,7 +12,8 @@ CHUNK = 8
 RULE = ("every 2-variable (and 1-variable) letter combination of the convex families "
         "(quick: {qp, soft} x {diag, rot2}; thorough: all) x jac {None, 2-point, 3-point, "
         "cs} x step letter {default, 1e-4, 0.3}, each compared with the exact-gradient run "
-        "of the same case; thorough adds 12 benchmark/non-convex objectives in boxes with "
+        "of the same case, plus a slice with the objective returning one reused 0-d/1-element "
+        "array and a slice with the whole problem translated by 2e3 / -1e5; thorough adds 12 benchmark/non-convex objectives in boxes with "
         "face/vertex starts; oracle: no exception, every stencil point inside the box "
         "(exact; real part for cs), nfev == number of objective calls, "
         "and for the step letters default and 1e-4: |f_FD - f_exact| <= 1e-7*(1+|f_exact|) + "
@@ -51,6 +52,17 @@ def cases(tier, variants):
     for c in F.convex_cases(2, variants, (3,), fams=("qp",), hesses=("rot2",)):
         for ji in range(4):
             yield dict(c, part="cvx", jac=ji, step=0, scaler=0.37)
+    # user letter: the objective hands its value back in one preallocated 0-d / 1-element
+    # array that it refills at every call
+    for c in F.convex_cases(2, variants, (3,), fams=("qp",), hesses=("rot2",)):
+        for ji in range(3):
+            yield dict(c, part="cvx", jac=ji, step=0, ret=("buf0", "buf1")[ji % 2])
+    # letter: variables of large magnitude (whole problem translated by 2e3 / -1e5): an
+    # absolute step (jac=None, eps) and a relative one (named schemes) differ by that factor
+    for sh in (2e3, -1e5):
+        for c in F.convex_cases(2, variants, (3,), fams=("qp",), hesses=("rot2",)):
+            for ji, si in ((0, 0), (0, 1), (1, 0), (1, 1), (2, 0)):
+                yield dict(c, part="cvx", jac=ji, step=si, shift=sh)
     if tier == "thorough":
         for v in variants:
             for fam in F.NONCONVEX:
@@ -76,6 +88,13 @@ def run(case):
         except Exception:
             return dict(viol=[], outcome="cs_unsupported", stats={"skipped": 1})
     obs = F.Obs(p.f, p.g, p.lb, p.ub)
+    ufun = obs.fun
+    if case.get("ret"):
+        retbuf = np.zeros(() if case["ret"] == "buf0" else (1,))
+
+        def ufun(x):
+            retbuf[...] = obs.fun(x)
+            return retbuf
     kw = dict(bounds=p.bounds, maxcor=case["maxcor"], maxiter=200, maxfun=20000, ftol=0.0,
               gtol=1e-6)
     fd = {}
@@ -91,7 +110,7 @@ def run(case):
         kw["gradient_scaler"] = (lambda *a_, _s=case["scaler"]: _s)
         kw["gtol"] = 1e-6 * case["scaler"]
     try:
-        res = minimize_lbfgsb(x0=p.x0.copy(), fun=obs.fun, jac=jac, **kw, **fd)
+        res = minimize_lbfgsb(x0=p.x0.copy(), fun=ufun, jac=jac, **kw, **fd)
     except core.CaseTimeout:
         raise
     except np.linalg.LinAlgError as e:
@@ -127,7 +146,9 @@ def run(case):
         fe, ff = float(p.f(np.asarray(ex.x, float))), float(p.f(x))
         h = {None: 1e-8, "2-point": 1.5e-8, "3-point": 6.1e-6, "cs": 1.5e-8}[jac] \
             if step == "default" else step
-        h = h * max(1.0, float(np.max(np.abs(x))))
+        if jac is not None:
+            # named schemes: the step is relative to |x_i|; jac=None: `eps` is absolute
+            h = h * max(1.0, float(np.max(np.abs(x))))
         if case.get("abs_eps"):
             h = case["abs_eps"]
         Lc = float(np.max(np.diag(p.H))) + (3.0 * float(np.max((x - p.xs) ** 2))
